@@ -619,7 +619,9 @@ fn conflation_oracle_inner(
             return Err(Failure::new(format!(
                 "generation still fails with DuplicateTypePath({p}) after ensure_unique_type_paths"
             ))
-            .sig("dedup:renamed-path-collides")
+            // only the registries of the known finding (a family next to an existing `Foo<digits>`) get its
+            // signature; anywhere else a duplicate path that survives de-duplication is a new violation
+            .sig(if collision_prone(reg) { "dedup:renamed-path-collides" } else { "dedup:insufficient" })
             .with(json!({"case": decoded(), "dedup_registry": registry_json(&dedup)})));
         }
         GenResult::Err(e) => {
